@@ -22,9 +22,19 @@ class Gen:
         self.in_fn = 0
         self.funcs = []             # (name, param_kinds, ret_kind) visible at top scope chain
         self.planted = None
+        self.retired = []           # names whose scope has ended
+        self.reserved = set()       # names captured by functions (re-declaring them would change what a call does: still valid,
+                                    # but keep them so the generator's kind tracking stays exact)
 
     # ------------------------------------------------------------ names
     def fresh(self, prefix="v"):
+        """a name not declared in the *current* scope: usually new, sometimes one that is declared in an outer scope
+        (shadowing) or that was declared in a block that has ended (must be gone)"""
+        if prefix == "v" and self.r.random() < 0.3:
+            cands = [n for n in self.retired + [n for sc in self.scopes[:-1] for n, k in sc.items() if n.startswith("v")]
+                     if n not in self.scopes[-1] and n not in self.reserved]
+            if cands:
+                return self.r.choice(cands)
         self.counter += 1
         return f"{prefix}{self.counter}"
 
@@ -188,7 +198,9 @@ class Gen:
             out.extend(self.stmt(depth))
         if fn_ret:
             out.append(f"return {self.expr(fn_ret, 1)};")
-        self.scopes.pop()
+        gone = self.scopes.pop()
+        self.retired += [n for n in gone if n.startswith("v")]
+        self.retired = self.retired[-12:]
         self.funcs = saved_funcs
         return out
 
@@ -270,6 +282,8 @@ class Gen:
             return [f"if {self.expr('bool')} {{", f"    {r.choice(['break', 'continue'])};", "}"]
         if c < 0.80:
             name = self.fresh("f")
+            for sc in self.scopes:
+                self.reserved |= set(sc)
             nparams = r.randrange(0, 3)
             pks = [r.choice(["int", "str", "ilist"]) for _ in range(nparams)]
             ret = r.choice(["int", "str", "int"])
@@ -309,6 +323,29 @@ class Gen:
                 k = r.choice(KEYS)
                 return [f'{v}.{k} = {self.expr("int")};'] if r.random() < 0.5 else [f'{v}["{k}"] = {self.expr("str")};']
             return [f"print({self.expr('obj')});"]
+        if c < 0.97:
+            # closures created in a loop capture that iteration's bindings and are called after the loop
+            fs, g, k, v = self.fresh("fs"), self.fresh("g"), self.fresh("k"), self.fresh("e")
+            self.declare(fs, "flist")
+            body_local = self.fresh("w")
+            lines = [f"{fs} := [];", f"for [{k}, {v}] in {self.expr('ilist')} {{", f"    {body_local} := {v} * 2;",
+                     f"    fn {g}() {{", f"        return {v} * 100 + {k} + {body_local};", "    }", f"    {fs} += [{g}];", "}",
+                     f"for [_, {g}c] in {fs} {{", f"    print({g}c());", "}"]
+            return lines
+        if c < 0.985:
+            # aliasing: a second name for the same container, an update through one, both observed
+            kind = r.choice(["ilist", "obj"])
+            vs = [v for v in self.vars_of(kind) if v.startswith("v")]
+            if vs:
+                src = r.choice(vs)
+                al = self.fresh()
+                self.declare(al, kind)
+                if kind == "ilist":
+                    upd = r.choice([f"{al} += [{self.int_lit()}];", f"{al}[0] = {self.int_lit()};", f"{src} += [{self.int_lit()}];",
+                                    f"{al} = {al} + [{self.int_lit()}];"])
+                else:
+                    upd = r.choice([f'{al}.zz = {self.int_lit()};', f'{src}["yy"] = {self.int_lit()};'])
+                return [f"{al} := {src};", upd, f"print({src});", f"print({al});", f"print({src} === {al});"]
         # destructuring
         a, b, rest = self.fresh(), self.fresh(), self.fresh()
         self.declare(a, "int"); self.declare(b, "int"); self.declare(rest, "ilist")
@@ -336,6 +373,9 @@ class Gen:
                     lines.append(f)
                 self.planted = f
             lines.extend(self.stmt(0))
+        for name, kind in list(self.scopes[0].items()):
+            if kind in ("int", "str", "bool", "ilist", "obj", "counter"):
+                lines.append(f"print({name});")
         return "\n".join(lines) + "\n"
 
 
